@@ -253,8 +253,8 @@ def F28():
     """C07: disconnect() then loop_stop() from an application thread while the network thread is exiting:
     loop_stop() reads self._thread twice; the network thread clears it in between -> AttributeError."""
     from streams.threads import run_scenario
-    for seed in (488455, 1, 2, 3, 4, 5, 6, 7):
-        o = run_scenario(f"thr seed={seed} policy=random sw=0.1 msgs=0,1,0 N=1 early=1 proto=4")
+    for seed in (124, 259, 384):
+        o = run_scenario(f"thr seed={seed} policy=random sw=0.1 msgs=0,1,0 N=1 early=1 proto=4 conn=sync drop=0 part=0")
         bad = [e for e in o["errors"] if "AttributeError" in e]
         if bad:
             return f"seed {seed}: {bad[0]}"
@@ -287,6 +287,17 @@ def F30():
         if bad:
             return f"{line}: {bad[0]}"
     return None
+
+
+def F31():
+    """C06 (WebSocket): a PING arrives while a binary frame is only partly written; the PONG is sent straight to the
+    raw socket and lands inside the frame."""
+    from streams.ws import STREAMS
+    st = STREAMS[0]
+    case = ["send 0102030405 a1a2a3a4 3", "feed 8900", "recv 1", "send 0102030405 a1a2a3a4 100"]
+    obs = st.real(case)
+    hits = [h for h in st.monitors["C06"](st, case, obs) if h[1] == "wire-interleave"]
+    return hits[0][2] if hits else None
 
 
 def F27():
@@ -559,7 +570,7 @@ def F18():
 
 
 ALL = {"F1": F1, "F2": F2, "F3": F3, "F4": F4, "F4b": F4b, "F5": F5, "F6": F6, "F7": F7, "F8": F8, "F9": F9,
-       "F10": F10, "F19": F19, "F20": F20, "F21": F21, "F22": F22, "F23": F23, "F24": F24, "F25": F25, "F26": F26, "F29": F29, "F27": F27, "F28": F28, "F11": F11, "F12": F12, "F13": F13, "F13t": F13t, "F30": F30, "F15": F15, "F16": F16, "F17": F17, "F18": F18}
+       "F10": F10, "F19": F19, "F20": F20, "F21": F21, "F22": F22, "F23": F23, "F24": F24, "F25": F25, "F26": F26, "F29": F29, "F27": F27, "F28": F28, "F11": F11, "F12": F12, "F13": F13, "F13t": F13t, "F31": F31, "F30": F30, "F15": F15, "F16": F16, "F17": F17, "F18": F18}
 
 
 def run(name):
